@@ -40,7 +40,8 @@ func garblerWires() *fpai.SymSlice {
 	return &fpai.SymSlice{Name: "wires", M: map[string]*fpai.Obj{
 		"in0": {V: fpai.StructV{F: []fpai.Val{fpai.Lab("a0"), fpai.Lab("a0", "r")}}},
 		"in1": {V: fpai.StructV{F: []fpai.Val{fpai.Lab("b0"), fpai.Lab("b0", "r")}}},
-		"out": {V: fpai.StructV{F: []fpai.Val{fpai.LabelV{}, fpai.LabelV{}}}},
+		// the output slot holds whatever an earlier garbling left in the pooled scratch
+		"out": {V: fpai.StructV{F: []fpai.Val{fpai.Lab("stale:wire.L0"), fpai.Lab("stale:wire.L1")}}},
 	}}
 }
 
@@ -127,7 +128,8 @@ func garbleForms(p *load.Program, run *report.Run, fn *ssa.Function, rule string
 				wires := garblerWires()
 				idp := &fpai.Obj{V: fpai.IntV{Sym: "id0"}}
 				data := &fpai.Obj{V: fpai.DataV{}}
-				table := &fpai.Obj{V: fpai.ArrV{E: []fpai.Val{fpai.LabelV{}, fpai.LabelV{}, fpai.LabelV{}, fpai.LabelV{}}}}
+				// the row table is scratch too: rows of an earlier gate / garbling
+				table := &fpai.Obj{V: fpai.ArrV{E: []fpai.Val{fpai.Lab("stale:row0"), fpai.Lab("stale:row1"), fpai.Lab("stale:row2"), fpai.Lab("stale:row3")}}}
 				res, err := in.Call(fn, []fpai.Val{fpai.PtrV{O: newGate(op)}, wires, fpai.OpaqueV{Name: "enc"}, fpai.Lab("r"),
 					fpai.PtrV{O: idp}, fpai.PtrV{O: data}, fpai.PtrV{O: table}})
 				run.Count("garbler-partitions", 1)
@@ -238,7 +240,27 @@ func C01(p *load.Program, run *report.Run) {
 							b = fpai.Lab("b0", "r")
 						}
 						ev := newInterp(pa == 1, pb == 1)
-						ev.PhiOverride["Eval:id"] = fpai.IntV{Sym: "id0"}
+						// the gate under evaluation is at an arbitrary position of the list: everything the
+						// loop carries is unknown — the tweak counter is the symbol id0, a carried label is a
+						// fresh atom (a value left over from the previous gate), the loop index stays concrete
+						idKey := ""
+						ev.HavocPhi = func(fn *ssa.Function, phi *ssa.Phi, key string) (fpai.Val, bool) {
+							if fn != eval {
+								return nil, false
+							}
+							switch t := phi.Type().Underlying().(type) {
+							case *types.Basic:
+								if t.Kind() == types.Uint32 {
+									idKey = key
+									return fpai.IntV{Sym: "id0"}, true
+								}
+							case *types.Struct:
+								if typeName(phi.Type()) == "Label" {
+									return fpai.Lab("carried:" + key), true
+								}
+							}
+							return nil, false
+						}
 						rows := fpai.ArrV{}
 						for _, r := range gf.Rows {
 							rows.E = append(rows.E, r)
@@ -275,9 +297,9 @@ func C01(p *load.Program, run *report.Run) {
 						} else {
 							run.OK("O4-eval-output", key, p.Rel(eval.Pos()), "= "+want.Canon())
 						}
-						if eid, ok := ev.LastPhi["Eval:id"].(fpai.IntV); !ok || eid != gf.IDAfter {
+						if eid, ok := ev.LastPhi[idKey].(fpai.IntV); !ok || eid != gf.IDAfter {
 							run.Violate("O5-tweak-lockstep", key, p.Rel(eval.Pos()),
-								fmt.Sprintf("evaluator counter %v, garbler counter %v", ev.LastPhi["Eval:id"], gf.IDAfter), nil)
+								fmt.Sprintf("evaluator counter %v, garbler counter %v", ev.LastPhi[idKey], gf.IDAfter), nil)
 						} else {
 							run.OK("O5-tweak-lockstep", key, p.Rel(eval.Pos()), eid.String())
 						}
